@@ -33,11 +33,24 @@ try:
     pk = ' '.join(sorted(demo_pkgs))
     rc0, out0 = sh(f'go test -vet=off -count=1 -run "{runpat}" {pk}', cwd=wt)
     report['demo_without_change'] = 'pass' if rc0 == 0 else 'FAIL'
+    touched = sorted(set('./' + os.path.dirname(f) for f in meta.get('files', [])))
+    def failed(out):
+        return sorted(set(re.findall(r'^\s*--- FAIL: (\S+)', out, re.M)))
+    # baseline failures of the touched packages (no network / protoc / plugins) without the change and without the demo
+    for d in demos:
+        first = open(d).readline()
+        m = re.search(r'(private/\S+_test\.go|cmd/\S+_test\.go)', first)
+        os.rename(os.path.join(wt, m.group(1)), os.path.join(wt, m.group(1)) + '.off')
+    _, outbase = sh(f'go test -vet=off -count=1 -p 4 {" ".join(touched)}', cwd=wt)
+    base_failed = failed(outbase)
+    for d in demos:
+        first = open(d).readline()
+        m = re.search(r'(private/\S+_test\.go|cmd/\S+_test\.go)', first)
+        os.rename(os.path.join(wt, m.group(1)) + '.off', os.path.join(wt, m.group(1)))
     rc, out = sh(f'git apply {src}/patch.diff', cwd=wt)
     assert rc == 0, 'patch does not apply: ' + out
     rc1, out1 = sh(f'go test -vet=off -count=1 -run "{runpat}" {pk}', cwd=wt)
     report['demo_with_change'] = 'fail' if rc1 != 0 else 'PASSES (bad)'
-    touched = sorted(set('./' + os.path.dirname(f) for f in meta.get('files', [])))
     # remove demos before running the package tests with the change
     for d in demos:
         first = open(d).readline()
@@ -46,8 +59,9 @@ try:
     rcb, outb = sh('go build ./...', cwd=wt)
     report['build_with_change'] = 'ok' if rcb == 0 else 'FAIL'
     rct, outt = sh(f'go test -vet=off -count=1 -p 4 {" ".join(touched)}', cwd=wt)
-    report['touched_pkg_tests_with_change'] = 'pass' if rct == 0 else 'FAIL: ' + outt[-1500:]
-    ok = rc0 == 0 and rc1 != 0 and rcb == 0 and rct == 0
+    new_failed = [t for t in failed(outt) if t not in base_failed]
+    report['touched_pkg_tests_with_change'] = 'same failures as the unchanged tree: ' + str(base_failed) if not new_failed else 'NEW FAILURES: ' + str(new_failed)
+    ok = rc0 == 0 and rc1 != 0 and rcb == 0 and not new_failed
     report['verified'] = ok
     print(json.dumps(report, indent=1))
     if ok:
